@@ -355,7 +355,8 @@ def main_state(rng, cfg, mode, thumb, te, extra_sys=None, e=0, ee=0):
         R['SP' + m] = top
     for m in ('usr', 'fiq', 'irq', 'svc', 'abt', 'und', 'mon'):
         R['LR' + m] = rng.getrandbits(32) & ~3
-    sys = {'sctlr': G.sctlr_value(m=0, a=0, u=1, te=te, v=0, br=1, ee=ee), 'vbar': 0, 'mvbar': MON_BASE}
+    # SCTLR.VE: IRQ and FIQ enter through the IMPLEMENTATION DEFINED vectors - which the shipped configuration puts at 0x18 / 0x1C, where the handlers are anyway
+    sys = {'sctlr': G.sctlr_value(m=0, a=0, u=1, te=te, v=0, br=1, ee=ee, ve=int(rng.random() < 0.3)), 'vbar': 0, 'mvbar': MON_BASE}
     if cfg.get('have_security_ext'):
         sys['scr'] = 0
     sys.update(extra_sys or {})
